@@ -31,7 +31,8 @@ class C02(HistNProp):
         ws, wk = gen1.weights_for(rng, n, kinds=["none", "none", "int", "dyadic", "equal", "zeros"])
         entry = rng.choice(["h", "h", "list"] + (["h2"] if d == 2 else []) + (["h3", "h3cols"] if d == 3 else []))
         names = None
-        if rng.random() < 0.4:
+        if rng.random() < 0.4 or entry in ("h2", "h3cols"):
+            # (h2 / h3 with bare columns and no names record the names as (None, None): not part of this property)
             names = [f"n{i}" for i in range(d)]
         tags = ["d:%d" % d, "entry:" + entry]
         if any(gen1.is_consecutive_exact(a[1]) is False for a in axes):
